@@ -40,7 +40,9 @@ OTHER_CLASSES = ["loud", "first", "x1", "Narrator", "übung", "bg_plaid", "reddi
 # references whose decoding does not depend on the terminating semicolon in HTML's legacy table or that are numeric
 ENTITIES_SAFE = [["&amp;", "&"], ["&lt;", "<"], ["&gt;", ">"], ["&nbsp;", "\u00a0"], ["&#x41;", "A"], ["&#65;", "A"],
                  ["&#xe9;", "é"], ["&#x2014;", "—"], ["&#x1F600;", "\U0001F600"], ["&quot;", '"'], ["&eacute;", "é"],
-                 ["&#x26;", "&"], ["&#60;", "<"]]
+                 ["&#x26;", "&"], ["&#60;", "<"],
+                 # an ampersand that starts no reference (followed by a character that cannot continue one) is text; a tag may follow
+                 ["& ", "& "], ["&.", "&."], ["& ", "& "]]
 # named references that exist only in the semicolon-terminated form (&lrm; is part of the WebVTT cue-text grammar itself)
 ENTITIES_SEMI = [["&lrm;", "\u200e"], ["&ndash;", "–"], ["&hellip;", "…"], ["&notin;", "∉"]]
 
